@@ -434,3 +434,9 @@ add_multi("s-geometry-first-direction-chosen-by-the-sign-of-c", S, ["C13"], [
 add("dykstra-flat-loop-stops-inside-a-sweep", F, ["C15", "C09"], "dfols/util.py",
     "    while n < max_iter and cI >= tol:\n        cI = 0\n        for i in range(0,p):\n            # Update iterate\n            prev_x = x.copy()\n            x = P[i](prev_x - y[i,:])\n",
     "    cI = np.full((p,), float('inf'))\n    while n < p * max_iter and np.sum(cI) >= tol:\n        for i in [n % p]:\n            # Update iterate\n            prev_x = x.copy()\n            x = P[i](prev_x - y[i,:])\n", "stop-inside-a-sweep")
+
+# ---- C15-2d: pball is total
+add("pball-pull-back-by-the-excess-distance", F, ["C15"], "dfols/util.py", "    return c + (r/np.max([np.linalg.norm(x-c),r]))*(x-c)\n",
+    "    d = x - c\n    dist = np.linalg.norm(d)\n    return x - (max(dist - r, 0.0) / dist) * d\n", "C15-2d")
+add("s-pball-with-named-distance", S, ["C15", "C13"], "dfols/util.py", "    return c + (r/np.max([np.linalg.norm(x-c),r]))*(x-c)\n",
+    "    d = x - c\n    dist = np.linalg.norm(d)\n    return c + (r / max(dist, r)) * d\n")
